@@ -37,7 +37,7 @@ def _differ(d, how):
     return d
 
 
-def pin_dissent(kind, pos, how, broken, dsse=False):
+def pin_dissent(kind, pos, how, broken, dsse=False, params=None):
     """3 signers, threshold 2, the signer at [pos] in load order reports one different material / product"""
     def fn(env, wd):
         p = vscen.Pin(env)
@@ -53,6 +53,9 @@ def pin_dissent(kind, pos, how, broken, dsse=False):
             p.link("build", k.keyid, k, m2, p2, dsse=dsse, tamper="sig_nibble" if (broken and i == idx) else None)
         tags = ["c05_dissent:%s:%s:%s:n3:t2" % (kind, pos, how)] if not broken else ["c05_invalid_dissent:sig_nibble:%s" % pos]
         sc = p.scenario(_k(5), wd, tags=tags, expect="accept" if broken else "ThresholdVerificationError")
+        if params is not None:
+            sc["params"] = dict(params)
+            sc["tags"].append("c05_params_supplied")
         if broken:
             sc["expect_summary"] = {"materials": M, "products": P}
         return sc
@@ -111,7 +114,9 @@ def pin_one_functionary(case):
 PINNED = (
     [("dissent:%s:%s:%s" % (kind, pos, how), pin_dissent(kind, pos, how, False, dsse=(pos == "middle")))
      for kind, how in (("mat", "nibble"), ("prod", "add")) for pos in ("first", "middle", "last")]
-    + [("dissent:prod:last:remove", pin_dissent("prod", "last", "remove", False)),
+    + [("dissent:prod:last:nibble:empty_params", pin_dissent("prod", "last", "nibble", False, params={})),
+       ("dissent:mat:first:add:unused_param", pin_dissent("mat", "first", "add", False, dsse=True, params={"UNUSED": "x"})),
+       ("dissent:prod:last:remove", pin_dissent("prod", "last", "remove", False)),
        ("dissent:mat:last:rename", pin_dissent("mat", "last", "rename", False))]
     + [("broken_dissent:%s:%s" % (kind, pos), pin_dissent(kind, pos, "nibble", True))
        for kind in ("mat", "prod") for pos in ("first", "middle", "last")]
@@ -156,6 +161,9 @@ def run(ctx):
         dict(base, format="dsse", p_sub=0.12, root_dsse=None),
         dict(base, link_variants=["honest"] * 6 + ["unsigned", "wrong_signer", "missing", "disagree_mat", "disagree_prod"]),
         {"threshold_heavy": True, "p_sub": 0.1},
+        # a parameter set is supplied although the layout has no placeholders: thresholds are what they were
+        dict(base, params_fixed={}),
+        {"threshold_heavy": True, "p_sub": 0.1, "params_fixed": {"UNUSED": "x"}},
     ]
     pinned, recs, model = vscen.run_all(ctx, opt_sets, n, families=families, use_gpg=True, pinned=PINNED)
     summary = vscen.check_expectations(ctx, pinned, vcore.replay_file)
